@@ -52,6 +52,8 @@ pub struct Profile {
     pub p_sp_excursion: f64,
     /// the top-level code keeps values in a stack frame of its own
     pub p_main_frame: f64,
+    /// a piece of the data segment (label + data) stands between two functions
+    pub p_data_island: f64,
     /// layout: `j main` first, then the functions, main last (nothing behind its exit)
     pub p_functions_first: f64,
     /// a function gets an error-exit block behind its epilogue (the exit ecall is then the last
@@ -92,6 +94,7 @@ impl Profile {
             p_write_zero: 0.0,
             p_sp_excursion: 0.0,
             p_main_frame: 0.3,
+            p_data_island: 0.15,
             p_functions_first: 0.25,
             p_tail_exit: 0.12,
             p_csr: 0.0,
@@ -135,6 +138,7 @@ impl Profile {
             p_write_zero: 0.04,
             p_sp_excursion: 0.03,
             p_main_frame: 0.3,
+            p_data_island: 0.15,
             p_functions_first: 0.25,
             p_tail_exit: 0.12,
             p_csr: 0.03,
@@ -1790,6 +1794,22 @@ pub fn generate(rng: &mut Rng, prof: &Profile, inject: Option<Inject>) -> Genera
     }
     for k in order {
         let (s, e) = fn_ranges[k];
+        if g.rng.chance(prof.p_data_island) {
+            // data in front of the function: its label names the data, not the function
+            seq.push((Line::SecData, Flag::Both, None));
+            seq.push((Line::Label(format!("island_{k}")), Flag::Both, None));
+            let d = match g.rng.below(3) {
+                0 => Data::Word(vec![g.rng.range(-9, 9) as i32]),
+                1 => Data::Space(4 * (1 + g.rng.below(3)) as u32),
+                _ => Data::Asciz("island".into()),
+            };
+            seq.push((Line::Data(d), Flag::Both, None));
+            if g.rng.chance(0.3) {
+                // (a label that is still open when the segment ends)
+                seq.push((Line::Label(format!("island_{k}_end")), Flag::Both, None));
+            }
+            seq.push((Line::SecText, Flag::Both, None));
+        }
         for i in s..e {
             if first_fn == Some(k) {
                 // the base program keeps the function here; the violating one has it in front
